@@ -40,7 +40,7 @@ def justified : List Site := [
 /-- the Pool method that hands the pairs to the workers (`map` blocks until every task has been
     dispatched and returns results by index; anything lazier lets the parent merge while later tasks
     are still being pickled) -/
-def poolMethod : String := "imap"
+def poolMethod : String := "map"
 /-- `permutational_alignment` reads the second structure's atoms from the untouched input
     (`pristine`), not from the working copy it is overwriting group by group -/
 def costMatrixSource : String := "pristine"
